@@ -63,15 +63,6 @@ def Op.WF : Op → Prop
   | .addChild _ ts => Sorted ts
   | _ => True
 
-theorem isSorted_of_sorted : ∀ (l : List String), Sorted l → isSorted l = true
-  | [], _ => rfl
-  | [_], _ => rfl
-  | a :: b :: rest, h => by
-    have h' := List.pairwise_cons.mp h
-    have hab : a < b := h'.1 b List.mem_cons_self
-    simp only [isSorted, Bool.and_eq_true, Bool.not_eq_true', decide_eq_false_iff_not]
-    exact ⟨String.lt_asymm hab, isSorted_of_sorted (b :: rest) h'.2⟩
-
 theorem C20_parent_step (s : Children) (σ : SpecState) (op : Op) (hr : Refines s σ) (hw : op.WF) :
     Refines (step s op).1 (specStep σ op) := by
   intro m
